@@ -678,6 +678,10 @@ def case_component(ctx, name, specdir, module, cfgs, gocmd, overlays=(), extra_a
     ctx.cov["distinct_nontrivial"] = ctx.cov.get("distinct_nontrivial", 0) + st["distinct_nontrivial"]
     ctx.cov.setdefault("rule", "every input of the bounded grammar is enumerated by TLC (exhaustive within the stated bounds); each case is concretised and executed on the real function; non-trivial = cases counted by the runner as exercising more than the empty/identity path")
     for m in st["mismatches"]:
+        if m.get("kind") == "drift":
+            # the code differs from the implementation-shaped specification where the property leaves the result open
+            ctx.drift.append("%s.%s: code %s, step-level spec %s on input %s" % (name, m["fn"], json.dumps(m["actual"])[:100], json.dumps(m["expected"])[:100], json.dumps(m["input"])[:160]))
+            continue
         if isinstance(m.get("actual"), str) and m["actual"].startswith("HARNESS:"):
             raise Inconclusive("the harness itself panicked: %s" % m["actual"][:800])
         ctx.violation("%s.%s: %s: expected %s, got %s on input %s" % (name, m["fn"], m["kind"], json.dumps(m["expected"])[:150], json.dumps(m["actual"])[:150], json.dumps(m["input"])[:200]),
